@@ -321,10 +321,10 @@ func handleMODE(c *Client, e Event) {
 		return
 	}
 
-	c.state.RLock()
+	c.state.Lock()
 	channel := c.state.lookupChannel(e.Params[0])
 	if channel == nil {
-		c.state.RUnlock()
+		c.state.Unlock()
 		return
 	}
 
@@ -351,7 +351,7 @@ func handleMODE(c *Client, e Event) {
 		}
 	}
 
-	c.state.RUnlock()
+	c.state.Unlock()
 	c.state.notify(c, UPDATE_STATE)
 }
 
